@@ -193,12 +193,20 @@ def cases_for(tier):
     cases = []
     n = 1500 if tier == 'quick' else 25000
     for i in range(n):
-        t = valgen.rand_val(r, r.randint(2, 30), {'sub', 'call'} if i % 2 else set())
+        t = valgen.rand_val(r, r.randint(2, 30), [{'sub', 'call'}, set(), {'comment'}, {'comment', 'call', 'sub'}][i % 4])
         h = height(t)
         for _ in range(3):
             w = r.choice([1, 5, 20, 79, 200])
             d = r.choice([0, 1, 2, 3, h, h + 1, h + 2, max(0, h - 1)])
             cases.append(('random', t, dict(width=w, ribbon_width=r.choice([w, 200]), indent=r.choice([1, 4]), depth=d)))
+    # commented dict values / sequence elements / call arguments: the broken variants re-render the value
+    for d in range(0, 5):
+        for w in (10, 30, 79):
+            inner = ('list', [('int', 1), ('list', [('int', 2), ('list', [('int', 3)])])])
+            cm = ('commented', inner, 'note: set by the loader at startup')
+            for t in (('dict', [(('str', 'key'), cm), (('str', 'other'), ('int', 1))]), ('list', [cm, ('int', 0)]),
+                      ('call', 'make', [cm], [('kw', cm)]), ('dict', [(('commented', ('tuple', [('int', 1), ('tuple', [('int', 2)])]), 'key note'), cm)])):
+                cases.append(('commented', t, dict(depth=d, width=w)))
     # nested singletons of every leaf, every depth
     for leaf in valgen.LEAVES:
         t = leaf
@@ -213,7 +221,8 @@ def cases_for(tier):
 
 RULE = ('seeded random value trees up to 30 nodes (half with subclass instances and pretty_call objects) x depth in '
         '{0,1,2,3,height-1,height,height+1,height+2} x widths; towers of singleton containers (list, tuple, dict value, '
-        'dict key, call argument, frozenset) over every leaf of the adversarial alphabet at every depth 0..levels+2. '
+        'dict key, call argument, frozenset) over every leaf of the adversarial alphabet at every depth 0..levels+2; '
+        'commented dict values / elements / call arguments at depths 0..4 x widths 10, 30, 79 (both comment placements). '
         'Oracle on the implementation: for depth > height the text equals depth=None; otherwise the syntax tree of '
         'the output is walked in parallel with the tree of the unlimited output: below the cut everything identical, '
         'at nesting >= depth the placeholder of that node\'s own type ([...], (...), {...}, T(...)). The three '
